@@ -7,6 +7,18 @@ HOOK_COMMITS = subprocess.run(["git", "-C", "/repo", "log", "--format=%H", "--",
                               stdout=subprocess.PIPE, text=True).stdout.split()
 
 CLAIMED = {
+ "C10": dict(cat="proof", tech="Coq proof (import(export s) = s on parsed documents; UTF-8 sanitiser) + extracted-model correspondence on documents, Equals and paired queries",
+   text="Export/Import are modelled on parsed JSON documents; theorems: import(export s)=s for Count-Min, HyperLogLog and Top-K on valid-UTF-8 elements; refutation for binary Top-K elements (known finding). Every structure's document, the import into dirty targets, Equals both ways and paired queries before/after further common updates are diffed against the code. Bloom/cuckoo documents are tied by correspondence only so far (partial). Two import defects were repaired.",
+   note="Trusted as C03, plus encoding/json and base64 (the harness parses the implementation's bytes), floats opaque (bits<->text table from the implementation).", ref="6 C10"),
+ "C11": dict(cat="proof", tech="Coq proof (decode(encode s ++ rest) = (s, |encode s|, rest), returned counts) + byte-exact extracted-model correspondence",
+   text="Byte-exact codec models; theorems for Count-Min, HyperLogLog, bucket+cuckoo, Top-K (full heap): exact round trip with arbitrary trailing bytes, WriteTo/ReadFrom counts = bytes written/consumed, back-to-back streams; Top-K partial heap refuted (known finding). The implementation's stream, both counts, consumed bytes, Equals and paired queries are diffed for all five structures incl. Bloom (whose bit-packing theorem is still missing: partial). Four count/format defects were repaired.",
+   note="Trusted as C03, plus encoding/binary and the third-party bitset format.", ref="6 C11"),
+ "C17": dict(cat="proof", tech="Coq proof (Equals sound/reflexive/total/symmetric per structure) + extracted-model correspondence on twins, one-parameter and one-cell differences",
+   text="Theorems: Equals true implies equal parameters and payload (hence equal answers), reflexive, never panics on well-formed states of any dimensions; for Bloom, Count-Min, HyperLogLog, cuckoo, Top-K in memory after four repairs. The code's Equals is diffed both ways on twins, single-parameter tweaks, single mutated cells (first/middle/last via hooks) and unrelated pairs, with an answers-vs-Equals monitor.",
+   note="Trusted as C03, plus the mutator hooks.", ref="6 C17"),
+ "C18": dict(cat="proof", tech="Coq proof (every strict prefix of an image decodes to Err: extension lemma + exact round trip + no-panic) + exhaustive all-prefix correspondence per generated state",
+   text="Theorems for Count-Min, HyperLogLog, cuckoo, Top-K: for every well-formed state and every cut, ReadFrom returns an error (never success, never panic). For every generated state every strict prefix of the implementation's binary image and of its JSON export is fed to ReadFrom/Import and the outcome class is diffed (Bloom binary and all JSON prefixes by this sweep only: partial).",
+   note="Trusted as C11; json.Unmarshal's rejection of unbalanced text is exercised, not proved.", ref="6 C18"),
  "C04": dict(cat="proof", tech="Coq model of container/heap + Top-K with extracted-model correspondence on Values() and the raw heap array; Coq proof of the Values ordering (partial)",
    text="A faithful executable model of container/heap (up/down/Push/Pop/Remove) and of Top-K is diffed against the code after every step on Values() and on the heap array (ties, re-insertions, narrow sketches, counts to 2^32); an exact-totals monitor checks every clause of the property on the code's outputs. Proved so far: Values() is a permutation of the heap sorted by (count desc, element asc). The heap-order theorems behind 'unreported <= minimum' are not yet proved (partial).",
    note="Trusted as C03; container/heap is modelled, not verified.", ref="6 C04"),
